@@ -702,7 +702,7 @@ func c08R7(c *Ctx) {
 			c.Check(blocks, "C08.R7", "exhaustion arm in "+fn.Key()+" blocks the vSwitch", p.Pos(is), fn.Key(), "if ErrorCodeIs(err, InvalidVSwitchIDIPNotEnough, …) { vswpool.Block(<vsw>) }", "no SwitchPool.Block in the arm")
 		})
 	}
-	c.Floor("C08.R7", "exhaustion-code arms", 4, n)
+	c.Floor("C08.R7", "exhaustion-code arms", 1, n)
 }
 
 // R8: a publication that failed forces the full sync. Whatever the reason the
